@@ -587,17 +587,21 @@ def coupled (m : MachView) (p : Nat × Nat) : Bool :=
 `placement = none` is the code's default `list(range(circuit.num_qudits))`.  Indexing a placement
 that is too short raises in the code: `none`. -/
 def isCompatible (m : MachView) (cv : CircView) (placement : Option (List Nat)) : Option Bool :=
-  if cv.radixes.length > m.radixes.length then some false
-  else if cv.gates.any (fun g => !m.gates.contains g) then some false
-  else
-    let pl := placement.getD (List.range cv.radixes.length)
-    if cv.edges.any (fun e => decide (pl.length ≤ e.1) || decide (pl.length ≤ e.2))
+  let pl := placement.getD (List.range cv.radixes.length)
+  let tooWide := decide (cv.radixes.length > m.radixes.length)
+  let foreign := cv.gates.any (fun g => !m.gates.contains g)
+  let badIndex := cv.edges.any (fun e => decide (pl.length ≤ e.1) || decide (pl.length ≤ e.2))
         || decide (pl.length < cv.radixes.length)
-        || pl.any (fun p => decide (m.radixes.length ≤ p)) then none
-    else if cv.edges.any (fun e => !coupled m (pl.getD e.1 0, pl.getD e.2 0)) then some false
-    else if (List.range cv.radixes.length).any
-        (fun i => cv.radixes.getD i 0 != m.radixes.getD (pl.getD i 0) 0) then some false
-    else some true
+        || pl.any (fun p => decide (m.radixes.length ≤ p))
+  let uncoupledPair := cv.edges.any (fun e => !coupled m (pl.getD e.1 0, pl.getD e.2 0))
+  let radixMismatch := (List.range cv.radixes.length).any
+        (fun i => !(cv.radixes.getD i 0 == m.radixes.getD (pl.getD i 0) 0))
+  if tooWide then some false
+  else if foreign then some false
+  else if badIndex then none
+  else if uncoupledPair then some false
+  else if radixMismatch then some false
+  else some true
 
 /-! ## The submit / collect loop of `compile()` for a list of inputs -/
 
@@ -616,5 +620,16 @@ def lookup {α : Type} (store : List (Nat × α)) (j : Nat) : Option α :=
 def compileList {α β : Type} (run : α → β) (next : Nat) (tasks : List α) : List (Option β) :=
   let r := submitAll next tasks []
   r.1.map (fun j => (lookup r.2 j).map run)
+
+/-! ## Measurements and mappings (transcription of passes/measure.py, passes/mapping/apply.py) -/
+
+/-- `RestoreMeasurements`: `{pi[q]: c for q, c in measurements.items()}` with
+`pi = data.final_mapping` (an index outside the mapping raises: `none`). -/
+def restoreMeas (fm : List Nat) (ms : List (Nat × Nat)) : Option (List (Nat × Nat)) :=
+  ms.mapM (fun p => (fm[p.1]?).map (fun q => (q, p.2)))
+
+/-- `ApplyPlacement`: `data.final_mapping = [placement[p] for p in data.final_mapping]`. -/
+def applyPlacementMap (placement fm : List Nat) : Option (List Nat) :=
+  fm.mapM (fun p => placement[p]?)
 
 end BqVerif.Pipeline
